@@ -43,8 +43,50 @@ FIXED = [  # (id, property, commit, key regex, what failed)
  ("F40","C15","33956fa",r"repro:BayesianNetwork\.do:raised-but-mutated:AttributeError","do() crashed after removing edges when a CPD was missing"),
  ("F41","C06","3302e4b",r"dag_fit:fit:pandas-str-dtype","preprocess_data rejected pandas string dtype columns"),
  ("F42","C06","2e530bc",r"fit_update:.*parent-order","fit_update misaligned old CPD columns with the estimator's sorted-parent order"),
+ ("F43","C16","bc2d64e",r"purity_writer_xmlbif:XMLBIFWriter\.__str__:not-repeatable","XMLBIFWriter.__str__ re-indented its tree on every call (two str() calls differ)"),
+ ("F44","C19","0bfa5a6",r"dof0:pvalue-nan","power_divergence p-value NaN when pooled dof = 0"),
+ ("F45","C19","d03f13e",r"unused_category:raises","power_divergence raised for categorical columns with an unobserved level"),
+ ("F46","C19","f62d3f3",r"pearsonr:shift-invariance","partial correlation regressed without intercept (not shift invariant)"),
+ ("F47","C20","8154d82",r"gaussian_product_inplace:noop","GaussianDistribution.product(inplace=True) was a no-op"),
+ ("F48","C14","6b5deaa",r"mn_duplicate_factors:to_junction_tree:duplicate-factors","to_junction_tree used equal factors only once (partition function 30 -> 10)"),
+ ("F49","C02","6b5deaa",r".*:to_junction_tree:equal-factors-used-once","to_junction_tree used equal factors only once"),
+ ("F50","C14","6ff9cce",r"mn_triangulate_disconnected:triangulate:isolated-node:raised","triangulate raised for non-chordal graphs with an isolated node"),
+ ("F51","C07","c9a5d06",r"gibbs_api:GibbsSampling\.sample:seed-not-reproducible:no-start-state","GibbsSampling.sample drew the start state before seeding"),
+ ("F52","C07","77676d6",r"gibbs_api:GibbsSampling\.generate_sample:latents-not-dropped","GibbsSampling.generate_sample did not drop latents"),
+ ("F53","C07","2c3ebff",r"simulate:evidence-argument-mutated","simulate wrote '__X' entries into the caller's evidence dict"),
+ ("F54","C07","077ace9",r"simulate:auxiliary-columns-returned","simulate returned the auxiliary '__X' columns"),
+ ("F55","C07","fb683e6",r"rej_contract:rejection_sample:partial_samples:no-evidence:ignored","rejection_sample ignored partial_samples without evidence"),
+ ("F56","C07","652f3ab",r"mathext:sample_discrete\[2d\]:inexact-row-sum:.*","sample_discrete (2-D weights) lost rows whose weights were adjusted"),
+ ("F57","C15","7fdf77a",r"copy_separation:ClusterGraph\.copy:(content-nodes|raised:ValueError)","ClusterGraph.copy lost isolated cliques / raised"),
+ ("F58","C15","1408aa6",r"repro:DynamicBayesianNetwork\.add_cpds:duplicate-cpd","DBN.add_cpds appended a duplicate CPD instead of replacing"),
+ ("F59","C15","7153c3b",r"repro:DynamicBayesianNetwork\.copy:raised:ValueError","DBN.get_cpds/copy raised for a variable present in one slice only"),
+ ("F60","C17","598406b",r".*initialize_initial_state:(root-card-not-2.*|copied:parent-order.*|copied:state-names)","initialize_initial_state hard-coded cardinality 2, misordered parents, dropped state names"),
+ ("F61","C13","12577b6",r"query_multi_do:query:multi-do:parent-child","CausalInference.query adjusted for a variable that is itself intervened on"),
 ]
-KNOWN = [  # (id, property, key regex, what fails) - still present in /repo; see DESIGN.md §8 for why each is not repaired
+KNOWN = [  # (id, property, key regex, what fails) - still present in /repo; see DESIGN.md §12 for why each is not repaired
+ ("K05","C02",r"fg_ve:VariableElimination\.query:fg:raised:AttributeError","VariableElimination(FactorGraph).query raises AttributeError (FactorGraph has no `states`); needs a new attribute on FactorGraph - not a small repair"),
+ ("K06","C07",r".*:int-names-vs-numbers","integer state names that are not 0..k-1 (e.g. [1,2,3]) are confused with state numbers in _reduce_marg / DiscreteFactor.reduce: forward, likelihood-weighted, rejection, simulate and Gibbs use wrong CPD columns; repair touches the documented 'fall back to state numbers' behaviour of reduce()"),
+ ("K07","C07",r"fwd_contract:forward_sample:partial_samples:named-states:.*","forward_sample(partial_samples=frame of state NAMES) raises TypeError / returns NaN; names would have to be converted on entry (design decision: the API documents state numbers nowhere)"),
+ ("K08","C07",r"gibbs_api:GibbsSampling\.sample:state-numbers-not-names","GibbsSampling.sample returns state numbers, not state names (probably by design; contradicts 'every sampled value is a valid state name')"),
+ ("K09","C07",r"simulate_do_impossible:simulate:do-impossible-state:.*","simulate(do={X: x}) with x of probability 0 in every column never terminates (rejection loop)"),
+ ("K10","C13",r"query_multi_do:query:multi-do:default-adjustment","CausalInference.query with several do variables: the default adjustment set (parents) can contain descendants of another do variable - wrong answer; no small repair"),
+ ("K11","C13",r"minimal_adjustment:get_minimal_adjustment_set:latent:none-but-exists","get_minimal_adjustment_set returns None although a valid set exists when latents are present (minimal_dseparator gives up)"),
+ ("K12","C13",r"simulate_do_unreachable_state:simulate:unreachable-do-state:no-termination","simulate(do=...) to a state no parent configuration produces loops forever"),
+ ("K13","C13",r"minimal_adjustment:get_minimal_adjustment_set:descendant-of-treatment","get_minimal_adjustment_set can return a descendant of the treatment (U->X, U->M, X->M->Y gives {M}), hash-seed dependent"),
+ ("K14","C13",r"query_evidence:query:evidence-outside-adjustment-set","CausalInference.query drops evidence on variables outside the adjustment set from the inner query"),
+ ("K15","C13",r"adjustment_multi:is_valid_adjustment_set:pairs-zipped","is_valid_adjustment_set pairs treatments and outcomes with zip() instead of all pairs"),
+ ("K16","C14",r"mn_to_factor_graph:to_factor_graph:(same-scope-factors|target-fails-check_model)","MarkovNetwork.to_factor_graph names factor nodes by scope (two factors on one scope collide) and the result fails FactorGraph.check_model; needs factor objects as nodes - API-visible change"),
+ ("K17","C15",r"repro:BayesianNetwork\.remove_nodes?(_from)?:dangling-cpd-of-non-child","remove_node leaves the removed variable in the scope of a CPD whose evidence lists it although it is not a graph child (model was already inconsistent)"),
+ ("K18","C15",r"copy_separation:FactorGraph\.copy:factor_nodes-aliased","FactorGraph.copy: the copy's factor nodes are the original's factor objects"),
+ ("K19","C15",r"repro:DynamicBayesianNetwork\.(remove_node:.*|add_edge:cycle-accepted:after-remove_node|copy:content-nodes:after-remove_node)","DynamicBayesianNetwork inherits networkx remove_node: CPDs and the two-slice structure are left inconsistent (later add_edge accepts a cycle, copy differs); needs a new method"),
+ ("K20","C17",r"(constant_bn|constant_bn_named|init_state|init_state_named):add_edge:missing-slice-node","DBN.add_edge omits (u,1) for a variable that is only the source of inter-slice edges"),
+ ("K21","C17",r"(constant_bn|constant_bn_named):get_constant_bn:(edgeless-node:raised:ValueError|state-names)","get_constant_bn drops state names and fails when a slice node has no incident edge"),
+ ("K22","C17",r"inference_classes:DBNInference\.init:no-intra-edge-variable:raised:ValueError","DBNInference() raises for a variable without intra-slice edges (plain Markov chain)"),
+ ("K23","C17",r"inference_classes:(query|forward_inference):cross-inter:.*","inter-slice edge u->v with u != v: DBN inference raises or gives wrong marginals"),
+ ("K24","C17",r"inference_classes:query:interface-evidence:.*","smoothing with evidence on an interface node is wrong (backward pass drops it)"),
+ ("K25","C17",r"(inference_classes|inference_named):result-state-names","DBN inference result factors carry no state names"),
+ ("K26","C17",r"inference_multi:(query|forward_inference):multi-slice:values","variables of several slices in one request give wrong marginals; the stable test test_backward_inf_multiple_variables_with_evidence pins a wrong value, so no correct fix passes the unedited suite"),
+ ("K27","C20",r"canonical_marginalize_g:uninverted-Kjj","CanonicalDistribution.marginalize: constant g uses h_j' K_jj h_j instead of h_j' K_jj^-1 h_j"),
  ("K01","C18",r"closure:unsound-contraction|closure_bounds:.*|E1:Independencies\.closure\.<locals>\.sg3\[any\]/post\.contraction-sound#\d+",
   "Independencies.closure: contraction rule sg3 accepts Y,Z strictly inside the conditioning set without Y u Z == it (from X_|_W|{A,B,C}, X_|_A|B derives X_|_{W,A}|B); the stable test test_closure pins the resulting count (78), so no correct fix passes the unedited suite"),
  ("K02","C18",r"closure:incomplete:contraction-empty-context","Independencies.closure misses contraction with empty context (X_|_Y, X_|_W|Y => X_|_{Y,W}); same line as K01, pinned by test_closure"),
